@@ -3120,7 +3120,9 @@ class Wallet(object):
         for kb in key_balance_list:
             if kb['id'] in self._key_objects:
                 self._key_objects[kb['id']]._balance = kb['balance']
-        self.session.bulk_update_mappings(DbKey, key_balance_list)
+        # Only update the balance: account_id in this list is the account of the transaction, not of the key
+        self.session.bulk_update_mappings(DbKey, [{'id': kb['id'], 'balance': kb['balance']}
+                                                  for kb in key_balance_list])
         self._commit()
         # Bulk update bypasses DbKey objects already loaded in this session, refresh their balance attribute
         key_balances = {kb['id']: kb['balance'] for kb in key_balance_list}
